@@ -61,6 +61,10 @@ def _parse(out, res):
         pass
     if m:
         res.generated, res.distinct = int(m.group(1)), int(m.group(2))
+    if not res.generated:
+        ms = re.search(r'The number of states generated: (\d+)', out)       # -simulate mode
+        if ms:
+            res.generated = int(ms.group(1))
     m = _DEPTH.search(out)
     if m:
         res.depth = int(m.group(1))
